@@ -30,8 +30,15 @@ AppliedEvents(pre, post, c) == {r.ev : r \in NewlyAccepted(pre, post, c)}
 \* g.ref[c]  : ids refunded;  g.exe[c] : ids executed
 \* g.taken[c] : id -> hub-unit amount debited from the sender when the transfer was accepted (hub-origin sends)
 \* g.wd[c]    : <<token, nonce>> of batches the hub withdrew without an observed execution
-GhostInit(s) == [ref |-> [c \in Chains(s) |-> {}], exe |-> [c \in Chains(s) |-> {}], taken |-> [c \in Chains(s) |-> <<>>], wd |-> [c \in Chains(s) |-> {}]]
+GhostInit(s) == [ref |-> [c \in Chains(s) |-> {}], exe |-> [c \in Chains(s) |-> {}], taken |-> [c \in Chains(s) |-> <<>>], wd |-> [c \in Chains(s) |-> {}],
+                 cold |-> [d \in DOMAIN s.sup |-> 0]]
 
+HubValue(s, c, tr) == LET tok == TokByExt(Cfg(s), c, tr.tok) IN ConvDec(tok.dec, 18, tr.a + tr.f + tr.c)
+DenomOfTr(s, c, tr) == TokByExt(Cfg(s), c, tr.tok).denom
+\* cold-storage transfers that leave the live set in this step without being executed (expiry refund)
+ColdRefundedNow(pre, post, c, d) ==
+    {tr \in LiveTrs(pre, c) : IsColdTransfer(c, tr) /\ DenomOfTr(pre, c, tr) = d /\ tr.id \notin LiveIds(post, c)
+                               /\ ~\E ev \in AppliedEvents(pre, post, c) : ev.t = "Exec" /\ \E b \in pre.ch[c].bat : b.tok = ev.tok /\ b.n = ev.bn /\ tr \in RangeOf(b.txs)}
 \* transfers of batch (tok, n) in the pre-state that an applied Exec event of this step names
 ExecutedNow(pre, post, c) ==
     UNION {RangeOf(b.txs) : b \in {b \in pre.ch[c].bat : \E ev \in AppliedEvents(pre, post, c) : ev.t = "Exec" /\ ev.tok = b.tok /\ ev.bn = b.n}}
@@ -50,7 +57,10 @@ GhostNext(g, pre, a, res, post) ==
                  IF a.k = "Send" /\ res.out = "ok" /\ a.chain = c THEN Put(g.taken[c], res.id, a.amt + a.fee) ELSE g.taken[c]],
      wd |-> [c \in Chains(post) |->
                  g.wd[c] \cup {<<b.tok, b.n>> : b \in {b \in pre.ch[c].bat : (~\E o \in post.ch[c].bat : o.n = b.n /\ o.tok = b.tok)
-                                                                  /\ ~\E ev \in AppliedEvents(pre, post, c) : ev.t = "Exec" /\ ev.tok = b.tok /\ ev.bn = b.n}}]]
+                                                                  /\ ~\E ev \in AppliedEvents(pre, post, c) : ev.t = "Exec" /\ ev.tok = b.tok /\ ev.bn = b.n}}],
+     \* value of the cold-storage transfers (governance) that were refunded to the transit account instead of being executed
+     cold |-> [d \in DOMAIN post.sup |->
+                 g.cold[d] + (IF "ColdRefundToTransit" \in Dev THEN 1 ELSE 0) * FoldSet(LAMBDA c, acc : acc + FoldSet(LAMBDA tr, a2 : a2 + HubValue(pre, c, tr), 0, ColdRefundedNow(pre, post, c, d)), 0, Chains(pre) \ {"hub"})]]
 
 \* ---------------------------------------------------------------- C04  a transfer is in exactly one place
 C04Checks(g, pre, a, res, post) ==
@@ -129,8 +139,6 @@ C13Checks(pre, a, post) ==
       : c \in Chains(post)}
 
 \* ---------------------------------------------------------------- C12  cancellation and expiry
-HubValue(s, c, tr) == LET tok == TokByExt(Cfg(s), c, tr.tok) IN ConvDec(tok.dec, 18, tr.a + tr.f + tr.c)
-DenomOfTr(s, c, tr) == TokByExt(Cfg(s), c, tr.tok).denom
 \* a cancel is accepted iff the id is in the pool of that chain and the message sender is the recorded sender
 C12Cancel(g, pre, a, res, post) ==
     IF a.k # "Cancel" THEN {}
